@@ -23,6 +23,7 @@ class num_entry:
     params = dict(self=InfoT)
     requires = ["self._num_entry is None or self._num_entry == self._arm_idx_section.header.sh_size // 8"]
     returns = Int
+    modifies = ["self._num_entry"]
     ensures = ["result == self._arm_idx_section.header.sh_size // 8", "self._num_entry == result"]
 
 
@@ -46,6 +47,7 @@ class get_entry:
     params = dict(self=InfoT, n=Nat)
     requires = ["self._num_entry is None or self._num_entry == self._arm_idx_section.header.sh_size // 8",
                 "self._arm_idx_section.header.sh_offset + self._arm_idx_section.header.sh_size < 2**62"]
+    modifies = ["self._num_entry"]       # memo of the entry count (set by num_entry)
     returns = Any
     ghost = {"$B": "self._arm_idx_section.stream.B", "$o": "self._arm_idx_section.header.sh_offset + 8 * n",
              "$w0": "P('EH_index_struct', self._arm_idx_section.stream.B, self._arm_idx_section.header.sh_offset + 8 * n).word0",
